@@ -413,6 +413,33 @@ pub proof fn lemma_golomb_r<E: Endianness>(s: Seq<bool>, p: int, pos1: int, pos2
     }
 }
 
+/// C20: the Golomb codeword length is non-decreasing in the value, for every modulus
+pub proof fn lemma_golomb_len_monotone(a: u64, c: u64, b: u64)
+    requires b > 0, a <= c, c < u64::MAX,
+    ensures golomb_len(a, b) <= golomb_len(c, b),
+{
+    lemma_log2f_exists(b);
+    let qa = a / b; let qc = c / b;
+    let ra = (a % b) as u64; let rc = (c % b) as u64;
+    assert(ra < b && rc < b);
+    lemma_fundamental_div_mod(a as int, b as int);
+    lemma_fundamental_div_mod(c as int, b as int);
+    if qa == qc {
+        assert(ra <= rc) by (nonlinear_arith) requires a <= c, a == b * qa + ra, c == b * qc + rc, qa == qc;
+    } else {
+        assert(qa <= qc) by (nonlinear_arith) requires a <= c, b > 0, qa == a / b, qc == c / b;
+        assert(qa < qc);
+    }
+}
+
+pub fn len_golomb_monotone(a: u64, c: u64, b: u64) -> (r: (usize, usize))
+    requires b > 0, a <= c, c < u64::MAX,
+    ensures r.0 <= r.1,
+{
+    proof { lemma_golomb_len_monotone(a, c, b); }
+    (len_golomb(a, b), len_golomb(c, b))
+}
+
 } // verus!
 
 fn main() {}
